@@ -254,7 +254,7 @@ def confirm_hang(ctx, exe, c):
     """A watchdog that fired on a loaded machine is not yet a hang: run that behaviour alone with a long
     watchdog.  -> True if it hangs again."""
     b = dict(c["behaviour"], id=0)
-    res, crashes = run_replay(ctx, exe, [b], "confirm%d" % c["behaviour"]["id"], watchdog_s=90)
+    res, crashes = run_replay(ctx, exe, [b], "confirm%d" % c["behaviour"]["id"], watchdog_s=45)
     if any(x["rc"] == "hang" for x in crashes):
         c["step"] = crashes[0]["step"] if crashes[0]["step"] is not None else c["step"]
         return True
@@ -278,11 +278,15 @@ def replay_all(ctx, exe, insts):
         crashes += c
     by_id = {b["id"]: b for b in insts}
     nrep = 0
+    confirmed = False
     for c in crashes:
         bad = c["behaviour"]
-        if c["rc"] == "hang" and not confirm_hang(ctx, exe, c):
-            results[bad["id"]] = dict(c["retry"] or {"ok": True, "skipped": True}, beh=bad["id"])   # slow machine, not a hang
-            continue
+        # (one confirmed hang is enough: the others are then reported as the watchdog saw them)
+        if c["rc"] == "hang" and not confirmed:
+            if not confirm_hang(ctx, exe, c):
+                results[bad["id"]] = dict(c["retry"] or {"ok": True, "skipped": True}, beh=bad["id"])   # slow machine, not a hang
+                continue
+            confirmed = True
         nrep += 1
         if nrep > 3:
             continue
@@ -383,7 +387,7 @@ def record_validate(ctx, exe):
         shapes = [(n * 5, t, m, k) for (n, t, m, k) in shapes] * 2 + [(40, 5, 200, 16), (60, 1, 200, 12)]
 
     def rec(i, shape):
-        r = hrun.run_harness(exe, ["record", ctx.seed * 101 + i] + list(shape), timeout=900, env={"C10_WATCHDOG_S": "60"})
+        r = hrun.run_harness(exe, ["record", ctx.seed * 101 + i] + list(shape), timeout=900, env={"C10_WATCHDOG_S": "40"})
         return i, shape, r
     lines = []
     for i, shape, r in _par([(rec, i, s) for i, s in enumerate(shapes)], 4):
@@ -392,11 +396,13 @@ def record_validate(ctx, exe):
                 raise Broken("recorder failed: " + r.err[-1500:])
             last = max([j for j, ln in enumerate(r.lines) if '"e":"Cfg"' in ln] or [0])
             if r.rc == 3 or r.timed_out:
-                # watchdog: a thread never came back from a call.  Confirm on a quiet(er) run before alarming.
-                r2 = hrun.run_harness(exe, ["record", ctx.seed * 101 + i] + list(shape), timeout=900, env={"C10_WATCHDOG_S": "240"})
-                if r2.rc == 0:
-                    lines += r2.lines
-                    continue
+                # watchdog: a thread never came back from a call.  Unless a hang / violation was already established,
+                # confirm with a longer watchdog before alarming (a loaded machine is not a hang).
+                if not ctx.violations:
+                    r2 = hrun.run_harness(exe, ["record", ctx.seed * 101 + i] + list(shape), timeout=900, env={"C10_WATCHDOG_S": "120"})
+                    if r2.rc == 0:
+                        lines += r2.lines
+                        continue
                 ev = []
                 for x in r.lines[last:][-60:]:
                     try:
